@@ -25,9 +25,10 @@ func Walk(node Node, f func(Node) bool) {
 		walkComments(node.Last, f)
 	case *Comment:
 	case *Stmt:
-		for _, c := range node.Comments {
+		for i, c := range node.Comments {
 			if !node.End().After(c.Pos()) {
-				defer Walk(&c, f)
+				// All the remaining comments come after the node.
+				defer walkComments(node.Comments[i:], f)
 				break
 			}
 			Walk(&c, f)
@@ -138,9 +139,10 @@ func Walk(node Node, f func(Node) bool) {
 		walkList(node.Items, f)
 		walkComments(node.Last, f)
 	case *CaseItem:
-		for _, c := range node.Comments {
+		for i, c := range node.Comments {
 			if c.Pos().After(node.Pos()) {
-				defer Walk(&c, f)
+				// All the remaining comments come after the node's start.
+				defer walkComments(node.Comments[i:], f)
 				break
 			}
 			Walk(&c, f)
@@ -157,9 +159,10 @@ func Walk(node Node, f func(Node) bool) {
 		walkList(node.Elems, f)
 		walkComments(node.Last, f)
 	case *ArrayElem:
-		for _, c := range node.Comments {
+		for i, c := range node.Comments {
 			if c.Pos().After(node.Pos()) {
-				defer Walk(&c, f)
+				// All the remaining comments come after the node's start.
+				defer walkComments(node.Comments[i:], f)
 				break
 			}
 			Walk(&c, f)
